@@ -2,11 +2,26 @@
 # Runs the quick tier of several (default: all registered) monitors against one patch in ONE mutant slot; one line per monitor.
 #   tools/benign_wide.sh <delivery dir> [Cnn ...]        -> <delivery dir>/wide.log
 dir=$(readlink -f "$1"); shift
-props=${*:-$(sort /verif/tools/registered.txt)}
+# default: the monitors whose code under test lives in (or is built on) the crates the patch touches
+if [ $# -eq 0 ]; then
+  set --
+  t=$(grep -E '^\+\+\+ b/' "$dir/patch.diff" | sed -E 's#^\+\+\+ b/##; s#/.*##' | sort -u)
+  for c in $t; do case $c in
+    duke) set -- "$@" C01 C02 C06 C07 C11 C13 C14 C15 C16 C17 C18 ;;
+    quill) set -- "$@" C03 C04 C05 C06 C07 C08 C09 C10 C11 C12 C14 C15 C16 ;;
+    dukebox) set -- "$@" C07 C13 C14 C15 ;;
+    dukenest) set -- "$@" C14 C16 ;;
+    maven_dependency_resolver) set -- "$@" C19 ;;
+    raw_class_file) set -- "$@" C20 ;;
+    src) set -- "$@" C05 C15 ;;
+  esac; done
+  set -- $(printf '%s\n' "$@" | sort -u)
+fi
+props=$*
 : > "$dir/wide.log"
 patch="$dir/patch.diff"
 for p in $props; do
-  out=$(VERIF_BUDGET_S=${WIDE_BUDGET_S:-20} /verif/tools/with_mutant.sh ${WIDE_SLOT:-wide} "$patch" "$p" quick 2>&1); rc=$?
+  out=$(/verif/tools/with_mutant.sh ${WIDE_SLOT:-wide} "$patch" "$p" quick 2>&1); rc=$?
   patch="="
   echo "$p quick exit $rc $(echo "$out" | grep -E '^  signature' | head -3 | cut -c1-220 | tr '\n' '|')" | tee -a "$dir/wide.log"
 done
